@@ -633,8 +633,9 @@ def formatnum_fn(
     else:
         sep = ctx.LOCALIZATION_DATA["grouping_separator"]
 
-    if sep in arg0:
-        # separator only allowed when R)eversing
+    if sep in arg0.replace(".", ""):
+        # separator only allowed when R)eversing (the "." of raw input is
+        # always the decimal point, also when the locale groups with ".")
         return arg0
 
     decimal_point = ctx.LOCALIZATION_DATA["decimal_point"]
@@ -697,7 +698,8 @@ def _formatnum_reverse(ctx: "Wtp", arg0: str) -> str:
         return arg0.replace(decimal, ".").replace(sep, "").replace(" ", "")
 
     # Currently only doing the minimum by removing thousand separators
-    return arg0.replace(decimal, ".").replace(sep, "")
+    # (before converting the decimal point, as the separator may be ".")
+    return arg0.replace(sep, "").replace(decimal, ".")
 
 
 def dateformat_fn(
